@@ -177,6 +177,10 @@ static iwrc _exfile_initmmap_slot_lw(struct IWFS_EXT *f, MMAPSLOT *s) {
     if (s->mmap == MAP_FAILED) {
       iwrc rc = iwrc_set_errno(IW_ERROR_ERRNO, errno);
       iwlog_ecode_error3(rc);
+      // Not mapped: the slot must not keep a length with MAP_FAILED as its address,
+      // readers and writers fall back to the file for this region.
+      s->len = 0;
+      s->mmap = 0;
       return rc;
     }
 
@@ -245,6 +249,10 @@ static iwrc _exfile_truncate_lw(struct IWFS_EXT *f, off_t size) {
       rc = iwp_fallocate(impl->fh, size);
       RCGO(rc, truncfail);
       rc = _exfile_initmmap_lw(f);
+      if (rc) { // windows cannot follow the new size: give the space back and keep the old size
+        iwp_ftruncate(impl->fh, (off_t) old_size);
+        goto truncfail;
+      }
     }
   } else if (old_size > size) {
     if (!(omode & IWFS_OWRITE)) {
